@@ -31,14 +31,6 @@ def known_domain_findings(case):
         out.append('CV-rare-cutter-tail')
     if enz.resolve_exception(o['rule'], o.get('exception')) == 'trypsin_exception':
         out.append('CV-trypsin-exception')
-    ref = Ref(case['ref'])
-    for tid, (g, t) in ref.txs.items():
-        if t.get('cds') and t.get('utr') == 'ensembl':
-            edits, _ = M.tx_edits(ref, tid, [r for r in case['records'] if r['tx'] == tid
-                and r['kind'] in ('small', 'as')], M.start_index_of(ref, tid))
-            e = t['cds'][1]
-            if any(x.rs < e + 3 and x.re > e for x in edits):
-                out.append('CV-ensembl-utr-stop-lost')
     return out
 
 
@@ -63,15 +55,18 @@ def gen_case(d, family='small', enzymes=None, n_small=(1, 5), ref_kw=None, alt=T
         limits=True, novel=True, exceptions=(None,), spread=12):
     """ one callVariant case of the given family """
     # pylint: disable=too-many-branches,too-many-locals
-    kw = dict(n_genes=(1, 1), max_tx=1, p_nf=0.0)
+    # cds_start_NF / mRNA_end_NF transcripts are part of the linear families (12 % each tag)
+    kw = dict(n_genes=(1, 1), max_tx=1, p_nf=0.12)
+    if family == 'circ':
+        kw = dict(n_genes=(1, 1), max_tx=1, p_nf=0.0)
     if family == 'fusion':
         kw = dict(n_genes=(2, 2), max_tx=1, p_nf=0.0)
     if family == 'fuscirc':
         kw = dict(n_genes=(2, 2), max_tx=1, p_nf=0.0, n_exons=(2, 3))
     if family == 'as':
-        kw = dict(n_genes=(1, 1), max_tx=1, p_nf=0.0, n_exons=(2, 4))
+        kw = dict(n_genes=(1, 1), max_tx=1, p_nf=0.12, n_exons=(2, 4))
     if family == 'multi':
-        kw = dict(n_genes=(1, 2), max_tx=2, p_nf=0.0)
+        kw = dict(n_genes=(1, 2), max_tx=2, p_nf=0.12)
     kw.update(ref_kw or {})
     refd = refgen.gen_reference(d, **kw)
     ref = Ref(refd)
@@ -565,6 +560,9 @@ def check_headers(case, res):
                     known.append(('C03-noncanonical-backbone-incomplete-label', seq,
                         e['entry']))
                     continue
+                if rec['kind'] == 'circ' and circ_rare_signature(case, ref, rec, seq):
+                    known.append(('CV-circ-copy-inconsistency', seq, e['entry']))
+                    continue
             bad.append((w[0], seq, e['entry'], w[1]))
     return bad, known, dict(n_entries=n_entries, nontrivial=nontrivial)
 
@@ -603,3 +601,53 @@ def check_hygiene(case, res, canon_lo):
     if pairs_table != pairs_fasta:
         bad.append(('table-pairs', str(sorted(pairs_table ^ pairs_fasta)[:3])))
     return bad
+
+
+# ------------------------------------------------------------------ circRNA rare tail
+def circ_rare_signature(case, ref:Ref, rec, seq):
+    """ structural signatures of the open finding CV-circ-copy-inconsistency for a sequence
+    labelled with circRNA `rec` that is not realizable:
+      'mixed'  - realizable if every copy of the loop may carry its own subset of the records
+                 (the molecule has one sequence; the tool unrolls four copies and lets a
+                 path take different alleles in different copies)
+      'suffix' - a proper suffix of a realizable product (the product is cut where a record
+                 starts instead of at a cleavage site or ORF start)
+    returns the signature name or None """
+    opts = dict(case['opts'], w2f=True)
+    p = M.params_of(opts)
+    recs = [r for r in case['records'] if r['tx'] == rec['tx']]
+    try:
+        _, u, _ = M.circ_bounds(ref, rec, recs, opts)
+    except OverflowError:
+        return None
+    if any(len(x) > len(seq) and x.endswith(seq) for x in u):
+        return 'suffix'
+    gseq = ref.gene_seq(ref.gene_of(rec['tx'])['id'])
+    frags = sorted(tuple(f) for f in rec['frags'])
+    small = [x for x in recs if x['kind'] == 'small' and any(a <= x['g'] and
+        x['g'] + len(x['ref']) <= b for a, b in frags)]
+    if not small or len(small) > 3:
+        return None
+    loops = set()
+    for k in range(0, len(small) + 1):
+        for combo in itertools.combinations(small, k):
+            cs = sorted(combo, key=lambda v: v['g'])
+            if any(a['g'] + len(a['ref']) > b['g'] for a, b in zip(cs, cs[1:])):
+                continue
+            out = ''
+            for a, b in frags:
+                eds = [M.Edit(x['g'] - a, x['g'] - a + len(x['ref']), x['alt'], '', '',
+                    x['g'] - a, x['g'] - a + len(x['ref'])) for x in combo if a <= x['g'] < b]
+                out += M.apply_edits(gseq[a:b], eds)
+            loops.add(out)
+    loops = sorted(loops)
+    wide = dict(p, min_length=1, max_length=10 ** 6, min_mw=0.)
+    for four in itertools.product(loops, repeat=4):
+        if len(set(four)) == 1:
+            continue
+        full = ''.join(four)
+        for st_ in M.atg_starts(full):
+            prods = M.orf_products(full, st_, wide, strict=False)
+            if seq in prods or ('F' in seq and seq in M.add_w2f(set(prods), wide, False)):
+                return 'mixed'
+    return None
